@@ -165,6 +165,10 @@ Definition primary_trace (r : st1 * list primary_out) : srv * list primary_out :
 Definition sends_of (ops : list op1) : list (bytes * bool) :=
   flat_map (fun o => match o with Send1 b ok => [(b, ok)] | Env1 _ _ => [] end) ops.
 
+(** the steps that concern mirror [j] (and every send): what is left when the steps of all OTHER mirrors are erased *)
+Definition concerns (j : nat) (o : op1) : bool :=
+  match o with Send1 _ _ => true | Env1 i _ => i =? j end.
+
 (** * Configuration and attachment (pool.rs:364-390) *)
 
 Record mirror_cfg := mkMirror { m_addr : N (* host:port *); m_target : nat (* mirroring_target_index *) }.
